@@ -13,6 +13,7 @@ import (
 	"math/rand"
 	"os"
 	"strconv"
+	"time"
 
 	"github.com/vx-labs/wasp/v4/wasp"
 	"verifharness/internal/rec"
@@ -28,22 +29,31 @@ type scenario struct {
 	Calls []call `json:"calls"`
 }
 
-func doGet(p wasp.VerifMIDPool) (r int32, panicked bool) {
-	defer func() {
-		if recover() != nil {
-			panicked = true
-		}
+// A call that panics or does not return (a lock left held) ends the scenario: both are reported as "panic": true, a hang
+// additionally as "hang": true.  The allocator is mutex-protected and O(intervals): three seconds is for ever.
+var hung bool
+
+func guarded(f func()) (panicked bool) {
+	done := make(chan bool, 1)
+	go func() {
+		defer func() { done <- recover() != nil }()
+		f()
 	}()
-	return p.Get(), false
+	select {
+	case p := <-done:
+		return p
+	case <-time.After(3 * time.Second):
+		hung = true
+		return true
+	}
+}
+
+func doGet(p wasp.VerifMIDPool) (r int32, panicked bool) {
+	panicked = guarded(func() { r = p.Get() })
+	return r, panicked
 }
 func doPut(p wasp.VerifMIDPool, i int32) (panicked bool) {
-	defer func() {
-		if recover() != nil {
-			panicked = true
-		}
-	}()
-	p.Put(i)
-	return false
+	return guarded(func() { p.Put(i) })
 }
 
 func run(r *rec.Recorder, n int, s scenario) {
@@ -53,14 +63,16 @@ func run(r *rec.Recorder, n int, s scenario) {
 		switch c.Op {
 		case "get":
 			v, pn := doGet(p)
-			r.Emit(rec.Ev{"op": "get", "r": v, "i": 0, "panic": pn})
+			r.Emit(rec.Ev{"op": "get", "r": v, "i": 0, "panic": pn, "hang": hung})
 			if pn {
+				hung = false
 				return
 			}
 		case "put":
 			pn := doPut(p, c.I)
-			r.Emit(rec.Ev{"op": "put", "r": 0, "i": c.I, "panic": pn})
+			r.Emit(rec.Ev{"op": "put", "r": 0, "i": c.I, "panic": pn, "hang": hung})
 			if pn {
+				hung = false
 				return
 			}
 		}
